@@ -189,6 +189,9 @@ type multipartResponseAggregator struct {
 	initialResponse *graphql.Response
 	deferResponses  []*graphql.Response
 	done            chan bool
+	// flushPanic holds a panic raised by a flush on the ticker goroutine (e.g. a response that cannot be
+	// marshalled); Done re-raises it on the request's goroutine, where the server recovers it.
+	flushPanic any
 }
 
 // newMultipartResponseAggregator creates a new multipartResponseAggregator
@@ -206,6 +209,14 @@ func newMultipartResponseAggregator(
 	go func() {
 		ticker := time.NewTicker(tickerDuration)
 		defer ticker.Stop()
+		defer func() {
+			// nothing recovers a panic on this goroutine: it would end the process
+			if r := recover(); r != nil {
+				a.mu.Lock()
+				a.flushPanic = r
+				a.mu.Unlock()
+			}
+		}()
 		for {
 			select {
 			case <-a.done:
@@ -221,7 +232,18 @@ func newMultipartResponseAggregator(
 // Done flushes the remaining responses
 func (a *multipartResponseAggregator) Done(w http.ResponseWriter) {
 	a.done <- true
+	a.rethrow()
 	a.flush(w)
+}
+
+// rethrow re-raises, on the caller's goroutine, a panic that a flush raised on the ticker goroutine
+func (a *multipartResponseAggregator) rethrow() {
+	a.mu.Lock()
+	flushPanic := a.flushPanic
+	a.mu.Unlock()
+	if flushPanic != nil {
+		panic(flushPanic)
+	}
 }
 
 // Add accumulates the responses
